@@ -36,9 +36,6 @@ ABSOLUTE_SITES = {
     "Hydrodynamics.strongestShock|absolute|xtol|E^1|E^0": "same: xtol = atol next to rtol on a temperature root",
     "WallGoManager.validatePhaseInput|absolute|allclose|E^1|lit1e-05":
         "np.allclose(phase1, phase2, atol=1e-5): a sanity check that the two phases differ; distinct phases differ by O(vev)",
-    "EffectivePotential.findLocalMinimum|absolute|scipy-minimize-default|E^1|E^4":
-        "scipy BFGS defaults (gtol = 1e-5 on a gradient of kind E^3, absolute finite-difference step): the minimum is re-polished with a "
-        "relative tolerance by the phase tracer; listed in the property itself as a known absolute scale",
 }
 TYPED_FLOOR = 6000
 
